@@ -10,7 +10,12 @@ META = {
             "match, expansion = instantiation), termination with an explicit fuel bound, and the proved negation at the "
             "witness of the one residual defect. The model is tied to the Rust code, and the Rust code to the spec, by "
             "generated transformers x uses run through Transform::try_new/transform directly and through define-syntax with "
-            "quoted templates in a Vm, each case in a worker process under a wall budget and an address-space limit.",
+            "quoted templates in a Vm, each case in a worker process under a wall budget and an address-space limit. The "
+            "expansion driver Vm::transform (compile.rs) has its own model (structural walk of the form, fuel only for the "
+            "re-transformation of an expansion), its own R7RS specification (outermost-first expansion of a whole form) and "
+            "theorems (soundness under a decidable guard, the transformer sees the use as written, fuel exhaustion only "
+            "along a chain of expansions, quoted and quasiquoted data untouched), tied to the code by generated forms "
+            "transformed in a Vm that evaluated generated define-syntax forms.",
     "note": "Closed theorems (T17.1 soundness = first matching rule, earlier rules do not match per R7RS, expansion = R7RS "
             "instantiation unless the spec answers `mismatch`, i.e. ellipsis variables of one sub-template matched different "
             "numbers of items — the uses the property excludes; every class predicate is a decidable Bool function of the "
@@ -75,6 +80,25 @@ THEOREMS = [
     "Marwood.Proofs.C17.expand_terminates",
     "Marwood.Proofs.C17.transform_terminates",
     "Marwood.Proofs.C17.transform_terminates_driver_fuel",
+    # T17.3: the expansion driver (Vm::transform)
+    "Marwood.Proofs.C17.tableOf_accepted",
+    "Marwood.Proofs.C17.useFuelT_sufficient",
+    "Marwood.Proofs.C17.driver_sound_partial",
+    "Marwood.Proofs.C17.driver_sound_fails_at_witness",
+    "Marwood.Proofs.C17.kwFormals_model",
+    "Marwood.Proofs.C17.kwFormals_spec",
+    "Marwood.Proofs.C17.kwFormals_guard",
+    "Marwood.Proofs.C17.driver_outermost_first",
+    "Marwood.Proofs.C17.driver_expansion_of_use",
+    "Marwood.Proofs.C17.driver_error_propagates",
+    "Marwood.Proofs.C17.driver_operands_as_written",
+    "Marwood.Proofs.C17.driver_exhaustion_has_chain",
+    "Marwood.Proofs.C17.driver_fuel_mono",
+    "Marwood.Proofs.C17.driver_terminates_iff",
+    "Marwood.Proofs.C17.driver_macro_free_terminates",
+    "Marwood.Proofs.C17.driver_loops_on_self_expanding_macro",
+    "Marwood.Proofs.C17.driver_quote_unchanged",
+    "Marwood.Proofs.C17.driver_quasiquote_mask",
 ]
 
 _GAP = {}
@@ -114,9 +138,62 @@ def c17_zero_rep_tail(case, m):
     return _GAP.get(req) == "gap"
 
 
+_WHY = {}
+
+
+def _why_request(case):
+    sreq = case.get("spec_request") or ""
+    if sreq.startswith("spec-tr-expand "):
+        return "tr-expand-why " + sreq[len("spec-tr-expand "):]
+    return None
+
+
+@predicate("c17_driver_keyword_binding")
+def c17_driver_keyword_binding(case, m):
+    """a `tr-expand` case on which the test `binders` of `Spec.ExpandAll.expandGuard` fails (a macro keyword occurs in
+    the formals of a lambda / the target of a define met during the expansion — decided by the Lean driver with the
+    function that guards driver_sound_partial) while the tests for the uses pass, and the implementation answered
+    normally"""
+    w = _why_request(case)
+    if w is None:
+        return False
+    impl = case.get("impl", "")
+    if not (" ok " in impl or " err " in impl):
+        return False
+    if w not in _WHY:
+        _WHY[w] = driver_batch([w])[0]
+    return _WHY[w] == "binding"
+
+
 def nontrivial(req, impl):
     # a definition accepted / an expansion produced
-    return impl == "ok" or impl.startswith("ok ")
+    return impl == "ok" or impl.startswith("ok ") or (req.startswith("tr-expand ") and " ok " in impl)
+
+
+def spec_ok_expand(req, impl, spec):
+    """oracle of the `expand` streams: an expansion must be the one R7RS prescribes (outermost first, operands as
+    written) unless the spec says the ellipsis variables of some use matched different counts; a reported error is
+    always allowed; a panic never is; running forever only where the specification's chain of expansions does not end
+    either (a user macro that expands to itself)"""
+    if impl == "hang":
+        return spec == "hang"
+    if impl.endswith(" panic") or impl.startswith("panic"):
+        return False
+    if " ok " in impl:
+        return spec == impl or spec.endswith(" mismatch")
+    return True
+
+
+def _run_expand(ctx, name, args):
+    cases = gen_cases("transform", args, ctx.seed)
+    if len(cases) < int(args[1]) and name != "expand-corpus":
+        report_broken(ctx, "correspondence-run", "stream %s produced %d of %s cases" % (name, len(cases), args[1]))
+    md, sd = correspond(ctx, name, cases, nontrivial, spec_equal=spec_ok_expand)
+    st = ctx.streams[name]
+    st["impl_hang"] = sum(1 for c in cases if c[1] == "hang")
+    st["expansions"] = sum(1 for c in cases if " ok " in c[1])
+    st["changed_by_expansion"] = sum(1 for c in cases if " ok " in c[1] and not c[0].endswith(c[1].split(" ok ", 1)[1]))
+    settle(ctx, md, sd)
 
 
 def spec_ok(req, impl, spec):
@@ -150,6 +227,8 @@ def streams(ctx):
     _run_stream(ctx, "defs", ["defs", 4000 if q else 60000])
     _run_stream(ctx, "uses", ["uses", 20000 if q else 400000])
     _run_stream(ctx, "vm", ["vm", 6000 if q else 100000])
+    _run_expand(ctx, "expand-corpus", ["expand-corpus", 100])
+    _run_expand(ctx, "expand", ["expand", 2000 if q else 60000])
 
 
 def run(ctx):
@@ -162,7 +241,12 @@ def run(ctx):
              "one or two ellipsis variables, plus deliberately unsupported shapes) x uses built to match a rule (0-3 items per "
              "ellipsis, same or independent counts) and mutated or random non-matching uses; streams: defs (try_new only, half "
              "structurally damaged), uses (try_new + transform), vm (define-syntax with quoted templates, value of the use), "
-             "corpus (the defects observed on the pinned tree). implementation vs Lean model (exact response) and vs the R7RS "
+             "corpus (the defects observed on the pinned tree), expand / expand-corpus (0-3 define-syntax forms from a pool — "
+             "quoting, rule choice by operand shape, expanding to other user and prelude macros, a redefined prelude keyword, "
+             "a rejected definition, a self-expanding macro, random T17.1 transformers — evaluated in a fresh Vm, then "
+             "Vm::transform of a generated form: prelude and user macro uses nested as operands, in lambda/define/if/set!, "
+             "under quote, in quasiquote templates at levels 0-2 and in vectors, as operators, improper combinations, rarely a "
+             "keyword in a binding position). implementation vs Lean model (exact response) and vs the R7RS "
              "spec (an expansion must be the specified one unless the spec says the ellipsis variables matched different "
              "counts; hang/panic never allowed); non-trivial = definition accepted / expansion produced; distinct by request",
         trusted_extra=["Spec.Match is a hand-written reading of R7RS 4.3.2 (non-hygienic); data are compared with marwood's own "
